@@ -11,3 +11,26 @@ Definition ok (c : rcase) : bool :=
            (rc_accepted c).
 
 Definition mismatches (cs : list rcase) : list Z := mism_from ok 0 cs.
+
+(* The node's group over a history of resharing outputs handed to a REAL BeaconProcess
+   (onDKGCompleted -> transitionToNext): after every output the group the process holds (in memory
+   and in its key store) is what [reshare_step] says: the new group if the output passes the
+   checks, the old one -- untouched -- otherwise. *)
+Definition list_eqbZ (a b : list Z) : bool :=
+  (Nat.eqb (length a) (length b)) && forallb (fun p => fst p =? snd p) (combine a b).
+Definition ginfo_eqb (a b : ginfo) : bool :=
+  (gi_genesis a =? gi_genesis b) && (gi_period a =? gi_period b) && (canon_id (gi_id a) =? canon_id (gi_id b))
+  && (gi_seed a =? gi_seed b) && (gi_pk a =? gi_pk b) && (gi_scheme a =? gi_scheme b)
+  && (gi_transition a =? gi_transition b) && (gi_thr a =? gi_thr b) && list_eqbZ (gi_nodes a) (gi_nodes b).
+
+Record racase := mkRA { ra_cur : ginfo; ra_evs : list reshare_ev; ra_obs : list ginfo }.
+
+Fixpoint ra_run (cur : ginfo) (evs : list reshare_ev) (obs : list ginfo) : bool :=
+  match evs, obs with
+  | [], [] => true
+  | e :: evs', o :: obs' => let nxt := reshare_step cur e in ginfo_eqb nxt o && ra_run nxt evs' obs'
+  | _, _ => false
+  end.
+
+Definition ok_apply (c : racase) : bool := ra_run (ra_cur c) (ra_evs c) (ra_obs c).
+Definition mismatches_apply (cs : list racase) : list Z := mism_from ok_apply 0 cs.
